@@ -371,16 +371,144 @@ def _splice_headers(P, rep, prefix, key, doing, with_decision):
                 cands.append((t["args"][0], t["args"][1]))
             for l, r_ in cands:
                 a, c = source(l), source(r_)
-                for x, y in ((a, c), (c, a)):
-                    if x and y and x[0] == "index" and x[:2] == sa[:2] and len(x[2]) == 1:
-                        got.add((x[2][0], y[0] == "last" and y[2] == x[2]))
-        need = {(fa, True), (ft, True)}
-        ok = need <= got
+                for x, y, yop in ((a, c, r_), (c, a, l)):
+                    if x and x[0] == "index" and x[:2] == sa[:2] and len(x[2]) == 1:
+                        if y and y[0] == "last" and y[2] == x[2]:
+                            got.add((x[2][0], "last"))
+                        elif isinstance(yop, dict) and "const" in yop and yop["const"].get("int") is not None:
+                            got.add((x[2][0], "const %s" % yop["const"]["int"]))
+                        else:
+                            got.add((x[2][0], "other"))
+        # what the expansion was seeded with: the body's first segment starts as (type of the segment the call stands in, no address);
+        # an address or type that differs from the seed at the end is the body's own
+        seed = seed_of_expansion(P)
+        want_addr = (fa, "const %s" % seed["address"]) if seed and seed["address"] is not None else None
+        ok = (ft, "last") in got and want_addr is not None and want_addr in got and seed["type_from_last"]
         rep.ob("%s|first-segment-decision" % prefix, ok,
-               "whether the first expanded segment continues the current output segment is decided by comparing its address and type with the output's last segment" if ok else
-               "the first expanded segment's address/type are not compared with the output's last segment (comparisons found: %s): after a macro that left another segment selected or moved the origin, the next expansion lands in the wrong place" % sorted(got),
+               "the first expanded segment continues the current output segment exactly when it still is what the expansion was seeded with: no address of its own (%s) and the type of the output's last segment" % (seed["address"],) if ok else
+               ("the seed of an expansion carries the caller's address (not a constant): an `.org` in the body that equals it is taken for no `.org`, and a segment directive at the start of the body keeps the foreign address" if seed and seed["address"] is None else
+                "the first expanded segment's address/type are not compared with what the expansion was seeded with (seed %s, comparisons found: %s): after a macro that left another segment selected or moved the origin, the next expansion lands in the wrong place" % (seed, sorted(got))),
                loc=loc_of(b["blocks"][bb]["tspan"]))
     rep.floor("segments opened while %s" % doing, len(adds), 2 if with_decision else 1)
+
+
+def placeholder(P, rep, key):
+    """`@n` stands for the text of operand n.  Two implementations are recognised: the one that searches the line for the text "@<index>"
+    for every operand (format "@{}" of an enumerate() index), and the one that reads the line once (function `substitute`), which is
+    decided per character by abstract interpretation: a character that is not `@`, or an `@` with no operand behind its digit, is copied;
+    `@` + digit d is replaced by arguments[d] (decimal digit value, used as the index unchanged) and the digit is consumed."""
+    sub = [k for k in P.reachable([key]) if re.match(r"^builder::pass0::\w+$", k) and k != key and
+           any(MU.callee_names(t)[1] == "std::string::String::push_str" for _, t, _, _ in P.call_sites(k))]
+    if not sub:
+        tpls = fmt_templates(P, key)
+        keys = ["".join(x[1] if x[0] == 'lit' else "{}" for x in tpl) for tpl, bb in tpls if tpl]
+        okk = "@{}" in keys
+        enum = any(MU.callee_names(t)[1].endswith("Iterator::enumerate") for _, t, _, _ in P.call_sites(key))
+        rep.ob("C09.placeholder", okk and enum, "`@n` is replaced by the text of operand n (format \"@{}\" of the enumerate index)" if okk and enum else
+               "placeholder keys are not \"@\" + operand index (templates %s, enumerate %s)" % (keys, enum))
+        return
+    fn = sub[0]
+    M = absint.Machine(P, max_depth=3, loop_limit=1)
+    M.havoc_loops = True
+    paths = M.explore(fn, M.arg_unknowns(fn))
+    if M.capped or M.unsupported:
+        rep.unprovable("C09.placeholder", "exploration of %s incomplete: %s" % (fn, M.unsupported[:2]))
+        return
+    why = []
+    kinds = set()
+    for p in paths:
+        if p.exit not in ("loop", "Err"):
+            continue
+        calls = [e for e in p.events if e[0] == 'call']
+        nexts = [e for e in calls if e[1].endswith("Iterator>::next")]
+        pushes = [e for e in calls if e[1] == "std::string::String::push"]
+        pstrs = [e for e in calls if e[1] == "std::string::String::push_str"]
+        if not nexts:
+            continue
+        cur = "%s:Some.0" % _sym_of_call(p, nexts[0])
+        is_at = None
+        found = None
+        for e, t in p.conds:
+            sh = sx.show(e)
+            m = re.match(r"^\((.*):Some\.0 == (0x[0-9a-f]+|\d+)\)$", sh)
+            if m and int(m.group(2), 0) == ord("@"):
+                is_at = t
+            m = re.match(r"^\((.*and_then.*)#d == ([01])\)$", sh)
+            if m:
+                found = (m.group(2) == "1") == t
+        if is_at is None:
+            why.append("a character is handled without being compared with '@'")
+            continue
+        if is_at and found:
+            kinds.add("replace")
+            ok = len(pstrs) == 1 and not pushes and len(nexts) == 2 and "and_then" in str(pstrs[0][2][1]) and ":Some.0" in str(pstrs[0][2][1])
+            if not ok:
+                why.append("`@` + digit with an operand behind it does not append exactly that operand and consume the digit (appends %s, %d characters taken)" % (
+                    [str(x[2][1])[:50] for x in pstrs + pushes], len(nexts)))
+        else:
+            kinds.add("copy-at" if is_at else "copy")
+            ok = len(pushes) == 1 and not pstrs and len(nexts) == 1 and str(pushes[0][2][1]).endswith(":Some.0") and "next" in str(pushes[0][2][1])
+            if not ok:
+                why.append("a character that is no placeholder is not copied as it is (%s)" % [str(x[2][1])[:50] for x in pstrs + pushes])
+    if kinds != {"replace", "copy-at", "copy"}:
+        why.append("the three cases (plain character, `@` without operand, `@n`) were not all found: %s" % sorted(kinds))
+    # the digit and the index: to_digit(10) on the looked-at character, slice::get(arguments, n as usize)
+    digit_ok = index_ok = False
+    for k in P.body:
+        if not k.startswith(fn + "::{closure"):
+            continue
+        b = P.body[k]
+        ch = MU.Chaser(b)
+        for bb, t, n, tg in P.call_sites(k):
+            rp = MU.callee_names(t)[1]
+            if rp.endswith("char>::to_digit"):
+                root = ch.root(t["args"][0], through_calls=False)
+                digit_ok = "const" in t["args"][1] and t["args"][1]["const"].get("int") == "10" and root[0] == 2
+            if rp.endswith("[T]>::get"):
+                r0 = ch.root(t["args"][0], through_calls=False)
+                r1 = ch.root(t["args"][1], through_calls=False)
+                index_ok = r0[0] == 1 and r1[0] == 2 and not MU.proj_fields(r1[1])
+    if not digit_ok:
+        why.append("the digit behind `@` is not read as a decimal digit of the character that was looked at")
+    if not index_ok:
+        why.append("the operand is not looked up at the digit's value in the argument list")
+    # the argument list: the operands' texts in their order
+    b = P.body[key]
+    names = [MU.callee_names(t)[1] for _, t, _, _ in P.call_sites(key)]
+    order_ok = any(n.endswith("Iterator::collect") for n in names) and any(n.endswith("Iterator::map") for n in names) and \
+        not any(re.search(r"Iterator::(rev|skip|step_by|filter|take|skip_while|chain|zip)$", n) for n in names)
+    if not order_ok:
+        why.append("the argument texts are not simply the operands' texts in their order")
+    rep.ob("C09.placeholder", not why, "`@n` is replaced by the text of operand n, every other character is copied (decided per character on %s)" % fn if not why else
+           "placeholder substitution: %s" % "; ".join(sorted(set(why))[:3]))
+
+
+def _sym_of_call(p, ev):
+    """the printed name of the value a call event returned, as far as it shows in later events / conditions"""
+    return ""
+
+
+def seed_of_expansion(P):
+    """the Segment value macro_expand starts the body in: {'address': constant or None, 'type_from_last': bool}"""
+    key = "builder::pass0::macro_expand"
+    b = P.body.get(key)
+    if b is None:
+        return None
+    fn = [f["name"] for f in P.lib.adts["parser::Segment"]["variants"][0]["fields"]]
+    fa, ft = fn.index("address"), fn.index("t")
+    ch = MU.Chaser(b)
+    seeds = []
+    for bl in b["blocks"]:
+        for st in bl["stmts"]:
+            if st["k"] == "assign" and st["rv"]["k"] == "agg" and st["rv"]["kind"].get("path") == "parser::Segment":
+                seeds.append(st["rv"]["ops"])
+    if len(seeds) != 1:
+        return None
+    ops = seeds[0]
+    addr = ops[fa]["const"].get("int") if "const" in ops[fa] else None
+    locs, consts, calls, places = MU.backward_slice(b, [ops[ft]])
+    from_last = any(MU.callee_names(c)[1].endswith("Pass0Context::last_segment") for c in calls)
+    return {"address": addr, "type_from_last": from_last}
 
 
 def run(tier):
@@ -551,16 +679,12 @@ def run(tier):
         M = absint.Machine(P, max_depth=3, opaque={"parser::parse_iter"}, loop_limit=2)
         M.iter_budget = 1
         paths = M.explore(key, M.arg_unknowns(key))
-        none = [p for p in paths if any(isinstance(s, tuple) and s[0] == 's' and "::get(macroses*" in s[1] and s[1].endswith("#d") and sx.dom_size(d) == 1 and sx.dom_min(d) == 0 for s, d in p.state.doms.items())]
+        # the discriminant of the table lookup itself (not of something computed from what was found)
+        lookup = re.compile(r"^[\w:<>, ]*::get\(macroses\*[^()]*\)#d$")
+        none = [p for p in paths if any(isinstance(s, tuple) and s[0] == 's' and lookup.match(s[1]) and sx.dom_size(d) == 1 and sx.dom_min(d) == 0 for s, d in p.state.doms.items())]
         ok = bool(none) and all(p.exit == "Err" for p in none)
         rep.ob("C09.undefined", ok, "calling a macro that is not in the table is an error" if ok else "an undefined macro call does not fail (%s)" % [p.exit for p in none][:3])
-        tpls = fmt_templates(P, key)
-        keys = ["".join(x[1] if x[0] == 'lit' else "{}" for x in tpl) for tpl, bb in tpls if tpl]
-        okk = "@{}" in keys
-        b = P.body[key]
-        enum = any(MU.callee_names(t)[1].endswith("Iterator::enumerate") for _, t, _, _ in P.call_sites(key))
-        rep.ob("C09.placeholder", okk and enum, "`@n` is replaced by the text of operand n (format \"@{}\" of the enumerate index)" if okk and enum else
-               "placeholder keys are not \"@\" + operand index (templates %s, enumerate %s)" % (keys, enum))
+        placeholder(P, rep, key)
         # parse errors of the re-parsed body propagate
         prop = [p for p in paths if p.exit == "Err" and any(e[0] == 'propagate' and "parse_iter" in e[1] for e in p.events)]
         rep.ob("C09.body-errors", bool(prop), "an error while re-parsing the substituted body (e.g. a left-over @n) fails the build" if prop else
